@@ -1,8 +1,9 @@
-from . import streams_codec, cli
+from . import streams_codec, cli, streams_ugrid
 
 ID = 'C08'
-PROPS_MODULE = ['Refine.Props.C08', 'Refine.Props.C08Endian']
-STREAMS = [streams_codec.MESHB_WRITE, streams_codec.MESHB_READ, cli.CONVERT, cli.CONVERT_MPI]
+PROPS_MODULE = ['Refine.Props.C08', 'Refine.Props.C08Endian', 'Refine.Props.C08Ugrid']
+STREAMS = [streams_codec.MESHB_WRITE, streams_codec.MESHB_READ, cli.CONVERT, cli.CONVERT_MPI,
+           streams_ugrid.WRITE, streams_ugrid.READ, streams_ugrid.PART, streams_ugrid.GATHER]
 EXPLANATION = (
     'Proved in Lean (Refine/Props/C08.lean): decodeMeshb (encodeMeshb v m) = ok m for every WellFormed mesh and '
     'v in {2,3,4} (all 16 cell groups, vertex coordinates as bit patterns, ids, geometry records with gref as a '
@@ -18,12 +19,42 @@ EXPLANATION = (
     '(cli_convert, cli_convert_mpi; no model side): `ref translate` / `refmpi translate` at np = 0,2,3 between '
     'meshb and the six binary UGRID flavours on tet boxes and a prism slab with triangle + quad boundary and '
     'large ids; every output is parsed by the independent checks/pyio.py reader and must equal the input mesh '
-    '(coordinates bitwise, cells with orientation and tags).')
+    '(coordinates bitwise, cells with orientation and tags).  '
+    'BINARY UGRID (Refine/Props/C08Ugrid.lean, model Refine/Model/Ugrid.lean; all six file names = 2 byte orders x 2 integer '
+    'widths, every well-formed mesh, every rank count, every chunk size): roundtrip_ugrid — decodeUgrid (encodeUgrid m) = ok '
+    '(normalize m), where normalize is the stable tag order the serial writer\'s faceid sweep produces (a permutation of the '
+    'boundary faces, identity on sorted meshes, idempotent); the reader\'s block size does not matter; offsets_exact — every '
+    'section offset of ref_part_bin_ugrid and both fseeko expressions of ref_part_bin_ugrid_pack_cell, REGENERATED from the C '
+    'into Refine/Gen/UgridOffsets.lean on every run, equal the true byte position (prefix sum of the section sizes) in the '
+    'writer\'s output; part_read_chunk_independent / part_read_eq_serial — the parallel reader, seeking to those offsets and '
+    'reading in chunks of any size >= 1 on any number of ranks, holds the file\'s vertices and cells (= the serial reader\'s '
+    'mesh when cells have pairwise different node sets; otherwise minus later cells over a stored node set, as '
+    'ref_cell_add_many_global does); part_read_ownership — every stored cell is owned by exactly one rank and is stored on '
+    'the rank that receives it first and on its owner; ugrid_keeps_node_order — no pyramid/prism shuffle in any binary UGRID '
+    'function, the four dispatcher tables agree (regenerated into Refine/Gen/UgridFlavours.lean); gather_eq_export / '
+    'roundtrip_gather — the parallel writer lays out exactly like the serial one except for the boundary-face sort, and both '
+    'readers read it back.  Tie (harness h_ugrid, driver ugrid): ugrid_write — C writer bytes == encodeUgrid bytes for meshes '
+    'with tri+qua+tet+pyr+pri+hex present together, node slots with holes, tags up to 2^31-60 and down to -2^31, all six '
+    'names; ugrid_read — ref_import_by_extension and the static ref_import_bin_ugrid on files from the independent Python '
+    'writer == mesh; ugrid_part[np=1,2,3,5] — ref_part_by_extension under MPI: gathered owned vertices and owned cell '
+    'multiset incl. tags, per-rank local cell and node counts == model; ugrid_gather[np=1,2,3] — ref_gather_by_extension '
+    'bytes == gatherUgrid bytes (vertices in global order, cells in owner-rank order).  The oracles parse / write with the '
+    'independent UFile reader/writer of checks/streams_ugrid.py.')
 ASSUMPTIONS = [
     'serial reader/writer only (ref_import_meshb / ref_export_meshb); the parallel pair ref_part/ref_gather is tied '
     'only through the translated pyramid shuffles',
-    'binary ugrid bodies are not modelled in Lean (only their byte order is); they are covered end-to-end by the '
-    'cli_convert streams against the independent parser; su2, msh, fgrid, ascii ugrid are not covered',
+    'binary ugrid: modelled and tied (Refine.Model.Ugrid); su2, msh, fgrid, ascii .ugrid, .r8.ugrid are not covered.  '
+    'ugrid: the generated test meshes keep boundary faces and volume cells on disjoint vertex sets so that '
+    'ref_grid_inward_boundary_orientation (outside the model, run by ref_import_by_extension / ref_part_bin_ugrid) has '
+    'nothing to flip; tag spread per mesh < 7 and tags < INT_MAX - 50 (the serial writer sweeps the tag RANGE: finding '
+    'ugrid-export-faceid-range-sweep under C20); the parallel reader\'s chunk is MAX(1000000, ncell/nproc), so a second chunk '
+    '(the `ncell_read` terms of the two fseeko expressions) is reached only by the theorem (seek_exact, '
+    'part_read_chunk_independent), not by the tie; ref_cell_add_many_global drops a later cell over an already stored node '
+    'set, and WHICH of two different cells over one node set survives depends on the rank count (e.g. a two-sided baffle '
+    'tri (a,b,c) id 1 / tri (a,c,b) id 2 loses one side in the parallel reader only): the part stream uses pairwise '
+    'different node sets plus exact copies; gather stream coordinates avoid NaN and -0.0 (ref_gather_node sums with 0.0); '
+    'mpi errors on one rank (short file at np >= 2: rank 0 returns, the others wait in ref_mpi_scatter_recv) are not '
+    'exercised — malformed files go through the parallel reader at one rank only (C20)',
     'ref_grid_inward_boundary_orientation (run by ref_import_by_extension after the reader) is outside the model; '
     'the harness calls the static ref_import_meshb through white-box inclusion of ref_import.c',
     'the exporter\'s REF_INVALID branch for a version-2 file above 2 GiB is not modelled: WellFormed bounds the size',
